@@ -284,6 +284,7 @@ def shards(tier):
             if tier == 'thorough':
                 out.append({'kind': 'inject', 'proto': proto, 'transport': transport, 'tier': tier, 'program': 1})
             out.append({'kind': 'bombs', 'proto': proto, 'transport': transport, 'tier': tier})
+        out.append({'kind': 'lifecycle', 'proto': proto, 'transport': 'server', 'tier': tier})
     return out
 
 
@@ -304,6 +305,83 @@ def run_one(h, wsgi, proto, transport, data, charset=True):
     else:
         o = drv.call_server(h.srv, data, charset='utf-8' if charset else None)
     return o
+
+
+LIFECYCLES = [(1, 16), (100, 100), (8, 48)]
+
+
+def run_lifecycle(shard, res, h, valid, only):
+    """histories P^k D N^m: k protocol instances configured (legally) with permissive parser options parse a request and
+    are discarded; then m instances with DEFAULT settings are created in the same process and each receives the
+    internal-entity and the file-entity attack.  Default instances must behave as if the permissive ones had never
+    existed (nothing about parsers may be shared through process-wide state)."""
+    import gc
+    proto = shard['proto']
+    b = h.b
+    mon = Monitors()
+    try:
+        docs = [(k, d) for k, pos, d in attack_docs(valid, mon, proto) if k in ('internal-entity', 'ext-entity-file') and pos.startswith('text:')]
+        by_kind = {}
+        for k, d in docs:
+            by_kind.setdefault(k, d)
+        for (np, nd) in LIFECYCLES if shard['tier'] == 'thorough' else LIFECYCLES[:2]:
+            key = [np, nd]
+            if only is not None and only != key:
+                continue
+            perm = []
+            for i in range(np):
+                app = spec.make_app(b, harness.make_proto(proto, None, resolve_entities=True, load_dtd=True, huge_tree=True), harness.make_proto(proto))
+                srv = drv.make_server(app)
+                b.rec.reset()
+                b.rec.script['m'] = ('ret', 'fine')
+                drv.call_server(srv, valid, charset='utf-8')
+                perm.append((app, srv))
+            stale = {}
+            for app, srv in perm:
+                for an, v in vars(app.in_protocol).items():
+                    if isinstance(v, dict):
+                        stale.setdefault(an, set()).add(id(v))
+            del perm, app, srv
+            gc.collect()
+            keep = []
+            candidates = 0
+            for j in range(nd * 100):
+                inp = harness.make_proto(proto, None)
+                # every instance among the first nd is attacked; after that only those one of whose dict attributes lives
+                # where the same attribute of a discarded permissive instance lived (process-wide state keyed by identity)
+                reused = any(isinstance(v, dict) and id(v) in stale.get(an, ()) for an, v in vars(inp).items())
+                if j >= nd and not reused:
+                    keep.append(inp)
+                    continue
+                if j >= nd:
+                    candidates += 1
+                    if candidates > 40:
+                        break
+                app = spec.make_app(b, inp, harness.make_proto(proto))
+                srv = drv.make_server(app)
+                keep.append((app, srv))
+                for kind, data in sorted(by_kind.items()):
+                    mon.reset()
+                    b.rec.reset()
+                    b.rec.script['m'] = ('ret', 'fine')
+                    o = drv.call_server(srv, data, charset='utf-8')
+                    res['evaluations'] += 1
+                    calls = [c for c in b.rec.calls]
+                    hay = ' '.join(_strings([c[1] for c in calls])) + ' ' + (o.out or b'').decode('utf8', 'replace')
+                    nfile = mon.ino.drain()
+                    if mon.token in hay or nfile:
+                        res['violations'].append({'sig': 'C17|lifecycle|%s|%s' % (proto, kind),
+                                                  'what': '[%s] after %d permissive protocol instances were used and discarded, default-configured instance #%d expanded the %s '
+                                                          '(canary file opened %d times; token in arguments/response: %s)' % (proto, np, j, kind, nfile, mon.token in hay),
+                                                  'case': {'shard': shard, 'only': key}, 'count': 1})
+                    else:
+                        res['nontrivial'] += 1
+            res['cov']['lifecycle_identity_reuse_candidates'] = res['cov'].get('lifecycle_identity_reuse_candidates', 0) + candidates
+            res['outcomes']['lifecycle'] = res['outcomes'].get('lifecycle', 0) + 1
+            res['cov']['lifecycle_histories'] = res['cov'].get('lifecycle_histories', 0) + 1
+            del keep
+    finally:
+        mon.close()
 
 
 def child_main():
@@ -354,6 +432,10 @@ def run_shard(shard, only=None):
     wsgi = WsgiApplication(h.app)
     m = h.b.methods['m']
     valid = xsdcodec.build_request(h.codec, m, args, proto)
+    if shard['kind'] == 'lifecycle':
+        run_lifecycle(shard, res, h, valid, only)
+        from vf.props.c01 import compress
+        return compress(res)
     if shard['kind'] == 'inject':
         mon = Monitors()
         try:
